@@ -29,8 +29,7 @@ def processSubscribeExpected : List String :=
    -- the fold over the filters: one reason code per filter, tests in this order
    "range pk.Filters {",
    "if code != packets.CodeSuccess {",
-   "reasonCodes[i] = code.Code",
-   "continue",                                  -- skips the MQTT 3 downgrade at the end of the body (F23)
+   "reasonCodes[i] = code.Code",                -- no `continue` (fix e36320d): the MQTT 3 downgrade at the end of the body applies
    "} else {",
    "IsValidFilter(sub.Filter, false)",
    "if !IsValidFilter(sub.Filter, false) {",
